@@ -117,6 +117,7 @@ static int sim_mutex_unlock(uintptr_t m) {
   hb_release_obj(m);
   x.owner = -1;
   wake_waiters(ST_MUTEX, m, MAXT, W_WOKEN);
+  if (G.post_pts) point(P_POST, m);
   return 0;
 }
 
